@@ -286,6 +286,8 @@ def static_scratch_check(js):
             continue
         # source instructions that certainly precede (or are) the gate being expanded: everything up to
         # the first gate after the `copied`-th non-gate instruction
+        if copied > len(nongate_pos):
+            return None  # not the chunk structure this oracle can read; the executed comparison judges it
         start = nongate_pos[copied - 1] + 1 if copied > 0 else 0
         end = start
         while end < len(js) and not _is_gate_json(js[end]):
@@ -362,13 +364,20 @@ def oracle_compare(subs_js, nq, script, state, debug=False, given=None):
     if not states_equal(a["state"], b["state"]):
         return {"what": "final quantum state differs (beyond a global phase)", "stage": "state",
                 "overlap": float(abs(np.vdot(a["state"], b["state"])))}
+    # static oracles: they read the output's structure; an output they cannot read is not their finding
     for js, ser in zip(subs_js, tsubs):
-        sc = static_end_check(js, ser)
+        try:
+            sc = static_end_check(js, ser)
+        except Exception:
+            sc = None
         if sc is not None:
             return sc
     if given is None:
         for js in subs_js:
-            sc = static_scratch_check(js)
+            try:
+                sc = static_scratch_check(js)
+            except Exception:
+                sc = None
             if sc is not None:
                 return sc
     return None
